@@ -70,7 +70,10 @@ def actCtl (s : Ctl) : Act → Except (Fail × Ctl) Ctl
     | .error .unknown => .error (.unknown, s)
     | .error .transition => .error (.transition, s)
   | .freeze => .ok { s with frozen := true }
-  | .setupComponents => .ok { s with setupDone := true, log := s.log ++ ["setup_components"] }
+  | .setupComponents =>
+    -- a component's `setup` raises: `setup()` aborts in state `setup`, nothing of it is usable
+    if s.failOn = "setup_components" then .error (.other, { s with failOn := "" })
+    else .ok { s with setupDone := true, log := s.log ++ ["setup_components"] }
   | .emit e =>
     if !s.setupDone then .error (.other, s)
     else if s.st ≠ e then .error (.constraint, s)      -- `channel.emit` is allowed only in its own state
@@ -81,8 +84,12 @@ def actCtl (s : Ctl) : Act → Except (Fail × Ctl) Ctl
     else if !s.created then .error (.other, s) else .ok s
   | .create =>
     if !s.setupDone then .error (.other, s)
+    -- an initializer raises: the rows exist (the table is extended before the initializers run), the method aborts
+    else if s.failOn = "create" then .error (.other, { s with created := true, failOn := "" })
     else .ok { s with created := true, log := s.log ++ ["create"] }
-  | .stepBack => if !s.setupDone then .error (.other, s) else .ok s
+  -- the clock is a manager: it is set up (before any component) as soon as `setup()` got past `freeze`, also when a
+  -- component's `setup` raised afterwards (`frozen ∧ ¬setupDone`)
+  | .stepBack => if !s.setupDone && !s.frozen then .error (.other, s) else .ok s
   | .stepFwd => if !s.setupDone then .error (.other, s) else .ok s
   | .loopBegin _ => if !s.setupDone then .error (.other, s) else .ok s
   | .loopEnd => .ok s
@@ -157,5 +164,164 @@ def run : Nat → Sim → Except (Fail × Sim) Sim
 
 def init (start step stop : Int) : Sim :=
   { ctl := { st := "initialization" }, clock := start, step := step, stop := stop }
+
+/-! ### Sim-level runs project onto Ctl-level runs -/
+
+/-- the control part of a `Sim`-level result -/
+def ctlOf : Except (Fail × Sim) Sim → Except (Fail × Ctl) Ctl
+  | .ok s => .ok s.ctl
+  | .error (f, s) => .error (f, s.ctl)
+
+/-! ### alternative entry points: `run_simulation`, `InteractiveContext` -/
+
+/-- `InteractiveContext.setup()`: `super().setup()` then `self.initialize_simulants()` -/
+def isetup (s : Sim) : Except (Fail × Sim) Sim :=
+  match call "setup" s with
+  | .ok s' => call "initialize_simulants" s'
+  | .error e => .error e
+
+/-- `SimulationContext.run_simulation()`: setup, initialize_simulants, run, finalize, report; the first
+refusal aborts the wrapper. `interactive` = the receiver is an `InteractiveContext`, whose `setup` is `isetup`. -/
+def runSimulation (interactive : Bool) (fuel : Nat) (s : Sim) : Except (Fail × Sim) Sim :=
+  match (if interactive then isetup s else call "setup" s) with
+  | .error e => .error e
+  | .ok s =>
+    match call "initialize_simulants" s with
+    | .error e => .error e
+    | .ok s =>
+      match run fuel s with
+      | .error e => .error e
+      | .ok s =>
+        match call "finalize" s with
+        | .error e => .error e
+        | .ok s => call "report" s
+
+/-- the wrapper on the control part alone, with the number of loop iterations given -/
+def stepsCtl : Nat → Ctl → Except (Fail × Ctl) Ctl
+  | 0, c => .ok c
+  | n+1, c =>
+    match callCtl "step" c with
+    | .ok c' => stepsCtl n c'
+    | .error e => .error e
+
+def runSimulationCtl (n : Nat) (c : Ctl) : Except (Fail × Ctl) Ctl :=
+  match callCtl "setup" c with
+  | .error e => .error e
+  | .ok c =>
+    match callCtl "initialize_simulants" c with
+    | .error e => .error e
+    | .ok c =>
+      match stepsCtl n c with
+      | .error e => .error e
+      | .ok c =>
+        match callCtl "finalize" c with
+        | .error e => .error e
+        | .ok c => callCtl "report" c
+
+/-- `InteractiveContext.step(step_size)` without per-simulant clocks: override the global step, `step()`,
+write the old step back (also when `step()` raised? no: the restore is after the call, a raise skips it) -/
+def stepWithSize (x : Int) (s : Sim) : Except (Fail × Sim) Sim :=
+  -- before the clock is set up the compatibility check (`self._clock.step_size`) raises: nothing is overridden
+  if !s.ctl.setupDone && !s.ctl.frozen then .error (.other, s)
+  else
+    match call "step" { s with step := x } with
+    | .ok s' => .ok { s' with step := s.step }
+    | .error e => .error e
+
+/-- `run_until(t)` / `run_for(t - now)`: `while time < t: step()` (same loop as `run`, other bound) -/
+def runUntil (fuel : Nat) (t : Int) (s : Sim) : Except (Fail × Sim) Sim :=
+  match run fuel { s with stop := t } with
+  | .ok s' => .ok { s' with stop := s.stop }
+  | .error (f, s') => .error (f, { s' with stop := s.stop })
+
+/-- `take_steps(n)` -/
+def takeN : Nat → Sim → Except (Fail × Sim) Sim
+  | 0, s => .ok s
+  | n+1, s =>
+    match call "step" s with
+    | .ok s' => takeN n s'
+    | .error e => .error e
+
+/-! ### requests performed from inside a listener -/
+
+/-- a request a listener performs while its event is being delivered -/
+inductive Req
+  | set (t : String)     -- `lifecycle.set_state(t)`
+  | call (m : String)    -- a context method
+deriving Repr, DecidableEq
+
+/-- an armed nested request: at the next emission of `ev` the probe listener performs `req` once,
+swallows a refusal, and records (accepted?, state right after) -/
+structure Nest where
+  ev   : String := ""        -- "" = nothing armed
+  req  : Req := .set ""
+  done : Option (Bool × String) := none
+deriving Repr, DecidableEq
+
+def performCtl (c : Ctl) : Req → Bool × Ctl
+  | .set t =>
+    match setState lifecycle c.st t with
+    | .ok t' => (true, { c with st := t' })
+    | .error _ => (false, c)
+  | .call m =>
+    match callCtl m c with
+    | .ok c' => (true, c')
+    | .error (_, c') => (false, c')
+
+def marker (ok : Bool) (st : String) : String := (if ok then "nested:ok:" else "nested:err:") ++ st
+
+/-- run a method body on the control part; right after the first successful emission of `n.ev` the armed
+request is performed from inside the listener (the method then carries on with whatever state that left) -/
+def runCtlN : List Act → Ctl × Nest → Except (Fail × Ctl × Nest) (Ctl × Nest)
+  | [], x => .ok x
+  | a :: rest, (c, n) =>
+    match actCtl c a with
+    | .ok c' =>
+      if n.ev ≠ "" ∧ a = .emit n.ev then
+        let r := performCtl c' n.req
+        runCtlN rest ({ r.2 with log := r.2.log ++ [marker r.1 r.2.st] },
+                      { ev := "", req := n.req, done := some (r.1, r.2.st) })
+      else runCtlN rest (c', n)
+    | .error (f, c') => .error (f, c', n)
+
+def callCtlN (m : String) (x : Ctl × Nest) : Except (Fail × Ctl × Nest) (Ctl × Nest) :=
+  runCtlN (expand (skeletonOf m)) x
+
+def perform (s : Sim) : Req → Bool × Sim
+  | .set t =>
+    match setState lifecycle s.ctl.st t with
+    | .ok t' => (true, { s with ctl := { s.ctl with st := t' } })
+    | .error _ => (false, s)
+  | .call m =>
+    match call m s with
+    | .ok s' => (true, s')
+    | .error (_, s') => (false, s')
+
+def runActsN : List Act → Sim × Nest → Except (Fail × Sim × Nest) (Sim × Nest)
+  | [], x => .ok x
+  | a :: rest, (s, n) =>
+    match act s a with
+    | .ok s' =>
+      if n.ev ≠ "" ∧ a = .emit n.ev then
+        let r := perform s' n.req
+        runActsN rest ({ r.2 with ctl := { r.2.ctl with log := r.2.ctl.log ++ [marker r.1 r.2.ctl.st] },
+                                  tlog := r.2.tlog ++ [r.2.clock] },
+                       { ev := "", req := n.req, done := some (r.1, r.2.ctl.st) })
+      else runActsN rest (s', n)
+    | .error (f, s') => .error (f, s', n)
+
+def callN (m : String) (x : Sim × Nest) : Except (Fail × Sim × Nest) (Sim × Nest) :=
+  runActsN (expand (skeletonOf m)) x
+
+/-- `run()` with a possibly armed nested request -/
+def runN : Nat → Sim × Nest → Except (Fail × Sim × Nest) (Sim × Nest)
+  | 0, x => .ok x
+  | k+1, (s, n) =>
+    if !s.ctl.setupDone then .error (.other, s, n)
+    else if cmpHolds s.clock s.stop then
+      match callN "step" (s, n) with
+      | .ok x' => runN k x'
+      | .error e => .error e
+    else .ok (s, n)
 
 end Viv.Ctx
